@@ -340,7 +340,15 @@ def run(ctx):
                   "stdout is redirected to is searched, or every other file is skipped", fn=pe, construct="path_equals")
         ro = facts.fn(W + "::Worker::run_one")
         ebr = ExprBuilder(ro)
-        gw = ro.calls_to(W + "::Worker::generate_work")
+        # (generate_work may be called from a closure run_one maps over the directory's entries: the site is then the
+        # consuming call)
+        from ..flow import call_sites, captured_expr
+        gw_sites = call_sites(facts, ro, W + "::Worker::generate_work")
+
+        class _Site:
+            def __init__(self, bb, unit, call):
+                self.bb, self.unit, self.call, self.loc, self.args = bb, unit, call, call.loc, call.args
+        gw = [_Site(*t) for t in gw_sites]
         # value table: max_depth ∈ {None, Some(3)}, the entry's depth ∈ {2, 3, 4}; the outcome is whether generate_work (the
         # descent) and the report of a read_dir failure are still executable. However the limit is spelled — map_or with a
         # closure, a match, a helper method — a directory at or beyond the limit is neither read nor descended.
@@ -360,9 +368,20 @@ def run(ctx):
                                                                                        "" if gw[0].bb in sx.exec_blocks else "not "))
                 if errv and not below and any(c.bb in sx.exec_blocks for c in errv):
                     wrong_err.append("max_depth=3 depth=%d" % d_)
-            d_e = ebr.operand(gw[0].args[2])
+            d_e = ExprBuilder(gw[0].unit).operand(gw[0].args[2])
+
+            def from_depth(x):
+                if mentions_call(x, W + "::DirEntry::depth"):
+                    return True
+                # a captured `depth`: what the closure was built from
+                for y in walk(x):
+                    if y.k == "field" and str(y[2]).startswith("{closure}") and gw[0].unit is not ro:
+                        ce = captured_expr(facts, gw[0].unit, y[3])
+                        if ce is not None and mentions_call(ce, W + "::DirEntry::depth"):
+                            return True
+                return False
             okd = any(x.k == "bin" and x[1] in ("Add", "AddWithOverflow") and any(y.k == "const" and y[1] == 1 for y in (x[2], x[3]))
-                      and mentions_call(x, W + "::DirEntry::depth") for x in walk(d_e))
+                      and from_depth(x) for x in walk(d_e))
             if not wrong_desc and okd:
                 r.ok("max_depth", "children are generated at depth + 1 and only while depth < max_depth (6 rows)", fn=ro)
             elif wrong_desc and all("not generated" not in w_ for w_ in wrong_desc) and \
